@@ -442,6 +442,16 @@ VARIANTS = [
     V("c13-expansion-budget-never-renewed", {"C13": "R6", "C12": "R2"}, edits=[
         (B, "        if depth == 0:\n            self._action_expansions = 0\n        elif canonical in (PURE, CHOOSE, ENQUEUE_ACTIONS):\n", "        if canonical in (PURE, CHOOSE, ENQUEUE_ACTIONS):\n")],
       note="the budget becomes a lifetime budget (and run state that is not persisted)"),
+    # ------------------------------------------------------------------ rules added after the third round of seeded changes
+    V("c01-region-filter-uses-parent-index", {"C01": "R3"}, edits=[
+        (S, "if child.type != 'history' and child.id not in explicit_child_ids]", "if child.type != 'history' and child.id not in explicit_children]")],
+      note="the region filter consults the index keyed by parent ids"),
+    V("c06-params-withheld-when-falsy", {"C06": "R12"}, edits=[
+        (B, "        if params is None:\n            return fn(context, event)\n", "        if not params:\n            return fn(context, event)\n")]),
+    V("c09-done-callback-pops-owner", {"C09": "R11", "C14": "R8", "C08": "R10"}, edits=[
+        ("task_manager.py", "self._tasks_by_owner.get(owner_id, set()).discard(t)", "self._tasks_by_owner.pop(owner_id, set()).discard(t)")]),
+    V("silent-done-callback-guards-missing-owner", silent=["C09", "C14", "C08"], edits=[
+        ("task_manager.py", "task.add_done_callback(lambda t: self._tasks_by_owner.get(owner_id, set()).discard(t))", "task.add_done_callback(lambda t: owner_id in self._tasks_by_owner and self._tasks_by_owner[owner_id].discard(t))")]),
     # ================================================================== must stay silent
     V("silent-normal-form", silent=ALL, edits=[], note="whole tree re-emitted by ast.unparse: formatting, comments and line numbers all change"),
     V("silent-rename-local", silent=["C01", "C03", "C05", "C09", "C10"], edits=[
